@@ -78,6 +78,12 @@ let run_case k (c : case) =
   let buf = Buffer.create 1024 in
   let decisions = ref 0 in
   let status = ref "" in
+  (* the invariants proved in Coq (RwMutexCheck.check_state: table mode/exclusion, thread/table consistency, hand-off),
+     evaluated on every state reached; by RwMutexCheck.check_state_complete this can only fail if the model left its
+     reachable states, which the trace comparison would then attribute to the real code *)
+  let tids = List.init c.n nat_of_int in
+  let inv_bad = ref None in
+  let check_inv where = if !inv_bad = None && not (check_state c.pref !st tids) then inv_bad := Some where in
   let begin_next t =
     match rest.(t) with
     | [] -> finished.(t) <- true
@@ -139,11 +145,15 @@ let run_case k (c : case) =
              | Some r -> Buffer.add_string buf ("=" ^ status_text r); begin_next t
              | None -> ())
         end;
+        check_inv !decisions;
         current := t
       end
     end
   done;
-  Printf.printf "%d %s%s\n" k !status (Buffer.contents buf)
+  Printf.printf "%d %s%s\n" k !status (Buffer.contents buf);
+  (match !inv_bad with
+   | Some d -> Printf.printf "%d ORACLE FAIL a proved invariant (mode / thread-table consistency / hand-off) does not hold in the state after decision %d\n" k d
+   | None -> ())
 
 let () =
   let lines = Ocommon.read_lines () in
